@@ -50,6 +50,432 @@ def _store_writes(fn):
     return out
 
 
+# --------------------------------------------------------------------------- StrategyDict: effects per scenario
+def _is_super(call, meth, classes=("StrategyDict",)):
+    """super(C, self).meth(..) / super().meth(..): the arguments; Base.meth(self, ..) for the bases named; else None"""
+    if not (isinstance(call, ast.Call) and isinstance(call.func, ast.Attribute) and call.func.attr == meth) or call.keywords:
+        return None
+    v = call.func.value
+    if isinstance(v, ast.Call) and isinstance(v.func, ast.Name) and v.func.id == "super" and not v.keywords:
+        if not v.args or (len(v.args) == 2 and unparse(v.args[0]) in classes and unparse(v.args[1]) == "self"):
+            return list(call.args)
+    if isinstance(v, ast.Name) and v.id in ("MultiKeyDict", "dict", "object") and call.args and unparse(call.args[0]) == "self":
+        return list(call.args[1:])
+    return None
+
+
+class _Roles(ast.NodeTransformer):
+    """expressions (and the locals bound once to them) that stand for a documented quantity are replaced by a role
+    name, innermost first"""
+    def __init__(self, matchers):
+        self.matchers = matchers        # [(role, predicate(node) -> bool)]
+        self.names = {}                 # local -> role
+        self.sites = []                 # (role, lineno) of every evaluation of a role expression
+
+    def role_of(self, node):
+        for role, pred in self.matchers:
+            if pred(node):
+                return role
+        return None
+
+    def generic_visit(self, node):
+        node = ast.NodeTransformer.generic_visit(self, node)
+        if isinstance(node, ast.expr) and not isinstance(getattr(node, "ctx", None), (ast.Store, ast.Del)):
+            r = self.role_of(node)
+            if r is not None:
+                self.sites.append((r, getattr(node, "lineno", 0)))
+                return ast.copy_location(ast.Name(id=r, ctx=ast.Load()), node)
+        return node
+
+    def visit_Name(self, node):
+        if node.id in self.names:
+            return ast.copy_location(ast.Name(id=self.names[node.id], ctx=node.ctx), node)
+        return node
+
+
+def _single_assigned(fn):
+    cnt = {}
+    for n in ast.walk(fn):
+        if isinstance(n, ast.Name) and isinstance(n.ctx, (ast.Store, ast.Del)):
+            cnt[n.id] = cnt.get(n.id, 0) + 1
+    return {k for k, v in cnt.items() if v == 1}
+
+
+def _with_roles(fn, matchers):
+    """copy of the body with role expressions and the single-assignment locals holding them renamed; (body, roles)"""
+    body = [ast.parse(unparse(s)).body[0] for s in docstring_free(fn.body)]
+    once = _single_assigned(fn)
+    tr = _Roles(matchers)
+    new = body
+    for _ in range(5):
+        tr.sites = []
+        new = [tr.visit(ast.parse(unparse(s)).body[0]) for s in body]
+        grew = False
+        for s in ast.walk(ast.Module(body=new, type_ignores=[])):
+            if isinstance(s, ast.Assign) and len(s.targets) == 1 and isinstance(s.targets[0], ast.Name) \
+                    and isinstance(s.value, ast.Name) and s.value.id.endswith("__") and s.targets[0].id in once \
+                    and s.targets[0].id not in tr.names and not s.targets[0].id.endswith("__"):
+                tr.names[s.targets[0].id] = s.value.id
+                grew = True
+        if not grew:
+            break
+    for s in new:
+        ast.fix_missing_locations(s)
+    return new, tr
+
+
+def _role_copy(s):
+    """``K__ = K__``: the statement that bound a local to the role"""
+    return isinstance(s, ast.Assign) and len(s.targets) == 1 and isinstance(s.targets[0], ast.Name) \
+        and isinstance(s.value, ast.Name) and s.value.id == s.targets[0].id and s.value.id.endswith("__")
+
+
+def _drop_role_copies(stmts):
+    class T(ast.NodeTransformer):
+        def visit_Assign(self, node):
+            return None if _role_copy(node) else node
+    out = []
+    for s in stmts:
+        if _role_copy(s):
+            continue
+        s = T().visit(ast.parse(unparse(s)).body[0])
+        ast.fix_missing_locations(s)
+        out.append(s)
+    return out
+
+
+def _eq_truths(truths, a, b, val):
+    truths["%s == %s" % (a, b)] = val
+    truths["%s == %s" % (b, a)] = val
+    truths["%s != %s" % (a, b)] = not val
+    truths["%s != %s" % (b, a)] = not val
+
+
+def _mentions_role(node, role):
+    return any(isinstance(n, ast.Name) and n.id == role for n in ast.walk(node))
+
+
+def _local_def(s):
+    """``name = <expression without calls other than len / isinstance / vars / hasattr>``: bookkeeping, no effect"""
+    if not (isinstance(s, ast.Assign) and all(isinstance(t, ast.Name) for t in s.targets)):
+        return False
+    for n in ast.walk(s.value):
+        if isinstance(n, ast.Call) and not (isinstance(n.func, ast.Name) and n.func.id in (
+                "len", "isinstance", "vars", "hasattr", "tuple", "bool")):
+            return False
+    return True
+
+
+def _strategy_delitem(chk, repo, W):
+    from .. import dtable
+    rule = "C15.strategy"
+    where = W("StrategyDict.__delitem__")
+    fn = repo.find(LC, "StrategyDict.__delitem__")
+    par = [a.arg for a in fn.args.args]
+    chk.require(len(par) == 2 and par[0] == "self", "StrategyDict.__delitem__ signature changed")
+    key = par[1]
+
+    def is_K(n):
+        if isinstance(n, ast.Call) and unparse(n.func) == "self.key2keys" and [unparse(a) for a in n.args] == [key] \
+                and not n.keywords:
+            return True
+        return isinstance(n, ast.Subscript) and unparse(n.value) == "self._keys_dict" and unparse(n.slice) == key
+
+    def is_V(n):
+        if isinstance(n, ast.Subscript) and unparse(n.value) == "self" and unparse(n.slice) in (key, "K__"):
+            return True
+        if isinstance(n, ast.Call):
+            a = _is_super(n, "__getitem__")
+            if a is None and unparse(n.func) == "self.__getitem__" and not n.keywords:
+                a = list(n.args)
+            return a is not None and len(a) == 1 and unparse(a[0]) in (key, "K__")
+        return False
+    body, tr = _with_roles(fn, [("K__", is_K), ("V__", is_V)])
+    # top-level position of the deletion and of every evaluation of the two lookups
+    def is_delete(s):
+        if isinstance(s, ast.Expr):
+            a = _is_super(s.value, "__delitem__")
+            return a is not None and [unparse(x) for x in a] == [key]
+        return False
+    dels = [i for i, s in enumerate(body) if is_delete(s)]
+    nested = [s for top in body for s in ast.walk(top) if s is not top and isinstance(s, ast.stmt) and is_delete(s)]
+    chk.decide(len(dels) == 1 and not nested, rule, where, "the item is deleted through the base class, once, on every path",
+               why="super().__delitem__(key) must run unconditionally (found %d at top level, %d nested)" % (len(dels), len(nested)),
+               node=fn)
+    if len(dels) != 1 or nested:
+        return
+    d = dels[0]
+    # the original body decides where the lookups are evaluated
+    orig = docstring_free(fn.body)
+    late = []
+    for i, s in enumerate(orig):
+        for n in ast.walk(s):
+            if isinstance(n, ast.expr) and (is_K(n) or (isinstance(n, ast.Subscript) and unparse(n.value) == "self"
+                                                      and not isinstance(n.ctx, (ast.Store, ast.Del)))
+                                            or (isinstance(n, ast.Call) and unparse(n.func) in ("self.__getitem__",))):
+                if i >= d:
+                    late.append(short(n))
+    chk.decide(not late, rule, where, "names and strategy are looked up before the item is deleted",
+               why="after the deletion the key is gone: %s would raise KeyError" % late[:2], node=orig[d])
+    n_k = sum(1 for r, _ in tr.sites if r == "K__")
+    n_v = sum(1 for r, _ in tr.sites if r == "V__")
+    if not n_v:
+        chk.defer("%s: no lookup of the strategy being deleted was recognised" % where)
+        return
+    after = body[d + 1:]
+    before = body[:d]
+    for s in before:
+        if not _local_def(s):
+            chk.defer("%s: statement before the deletion is not a plain lookup: %s" % (where, short(s)))
+            return
+    a_has = "hasattr(self, %s)" % key
+    a_get = "getattr(self, %s)" % key
+    table = []
+    for has in (True, False):
+        for same in ((True, False) if has else (None,)):
+            for nk in (1, 2):
+                for isdef in (True, False):
+                    table.append((has, same, nk, isdef))
+    for has, same, nk, isdef in table:
+        truths = {a_has: has}
+        raising = set()
+        if has:
+            _eq_truths(truths, a_get, "V__", same)
+        else:
+            for t in ("%s == V__" % a_get, "V__ == %s" % a_get, "%s != V__" % a_get, "V__ != %s" % a_get):
+                raising.add(t)
+        _eq_truths(truths, "V__", "self.default", isdef)
+        F = dtable.Facts(truths=truths, lens={"K__": nk}, raising=raising)
+        label = "attribute %s, %s name(s) left, strategy %s the default" % (
+            "absent" if not has else ("still the strategy" if same else "overwritten by hand"), nk,
+            "is" if isdef else "is not")
+        try:
+            wk = dtable.walk(_drop_role_copies(before + after), F, where)
+        except AnalysisError as ex:
+            chk.defer(str(ex))
+            return
+        if wk.end == "raise":
+            chk.decide(False, rule, where, label, why="the comparison with the attribute is evaluated although the "
+                       "attribute does not exist (AttributeError): %s" % short(wk.raised_in_guard), node=fn)
+            continue
+        n_attr = n_def = 0
+        unknown = None
+        for s in wk.ran:
+            if _local_def(s):
+                continue
+            a = _is_super(s.value, "__delattr__") if isinstance(s, ast.Expr) else None
+            if a is not None and len(a) == 1:
+                t = unparse(a[0])
+                if t == key:
+                    n_attr += 1
+                    continue
+                if t == "'default'":
+                    n_def += 1
+                    continue
+            unknown = s
+            break
+        if unknown is not None:
+            chk.defer("%s: effect not recognised: %s" % (where, short(unknown)))
+            return
+        want_attr = 1 if (has and same) else 0
+        want_def = 1 if (nk == 1 and isdef) else 0
+        chk.decide(n_attr == want_attr, rule, where, label + ": attribute %s" % ("dropped" if want_attr else "kept"),
+                   why="the attribute goes only when it still is the strategy (super().__delattr__(%s) runs %d time(s))"
+                       % (key, n_attr), node=fn)
+        chk.decide(n_def == want_def, rule, where, label + ": default %s" % ("dropped" if want_def else "kept"),
+                   why="the default goes only when the default strategy loses its last name (super().__delattr__('default') "
+                       "runs %d time(s))" % n_def, node=fn)
+
+
+def _strategy_delattr(chk, repo, W):
+    from .. import dtable
+    rule = "C15.strategy"
+    where = W("StrategyDict.__delattr__")
+    fn = repo.find(LC, "StrategyDict.__delattr__")
+    par = [a.arg for a in fn.args.args]
+    chk.require(len(par) == 2 and par[0] == "self", "StrategyDict.__delattr__ signature changed")
+    attr = par[1]
+
+    def is_V(n):
+        if isinstance(n, ast.Subscript) and unparse(n.value) == "self" and unparse(n.slice) == attr \
+                and not isinstance(n.ctx, (ast.Store, ast.Del)):
+            return True
+        return isinstance(n, ast.Call) and unparse(n.func) == "self.__getitem__" and [unparse(a) for a in n.args] == [attr]
+    orig = docstring_free(fn.body)
+    tries = [s for s in orig if isinstance(s, ast.Try)]
+    if len(orig) != 1 or len(tries) != 1 or tries[0].finalbody:
+        # the lookup outside a try: KeyError would escape for plain attributes
+        outside = [short(n) for s in orig if not isinstance(s, ast.Try) for n in ast.walk(s) if isinstance(n, ast.expr) and is_V(n)]
+        if outside:
+            chk.decide(False, rule, where, "the strategy lookup is guarded by try / except KeyError",
+                       why="%s outside the try: deleting a plain attribute would raise KeyError" % outside[0], node=fn)
+        else:
+            chk.defer("%s: body is not a single try statement" % where)
+        return
+    body, tr = _with_roles(fn, [("V__", is_V)])
+    t = body[0]
+    caught = []
+    for h in t.handlers:
+        names = [] if h.type is None else ([unparse(e) for e in h.type.elts] if isinstance(h.type, ast.Tuple) else [unparse(h.type)])
+        caught.append((names, h))
+    key_handlers = [h for names, h in caught if not names or set(names) & {"KeyError", "LookupError", "Exception"}]
+    chk.decide(len(key_handlers) >= 1, rule, where, "KeyError of the strategy lookup is handled",
+               why="deleting an attribute that is no strategy must fall back to the plain deletion", node=fn)
+    if not key_handlers:
+        return
+    h = key_handlers[0]
+    hb = [s for s in h.body if not isinstance(s, ast.Pass)]
+    ok = len(hb) == 1 and isinstance(hb[0], ast.Expr) and (_is_super(hb[0].value, "__delattr__") or [None]) \
+        and [unparse(a) for a in (_is_super(hb[0].value, "__delattr__") or [])] == [attr]
+    chk.decide(ok, rule, where, "no such strategy: plain attribute deletion",
+               why="the handler must delete the attribute through the base class: %s" % "; ".join(short(s) for s in hb), node=h)
+    a_get = "getattr(self, %s)" % attr
+    first_eval = None
+    for s in t.body:
+        if _mentions_role(s, "V__"):
+            first_eval = s
+            break
+        if not _local_def(s):
+            break
+    chk.decide(first_eval is not None, rule, where, "the strategy lookup is the first thing the try block does",
+               why="KeyError must be raised before anything is changed", node=fn)
+    for same in (True, False):
+        truths = {}
+        _eq_truths(truths, "V__", a_get, same)
+        F = dtable.Facts(truths=truths)
+        label = "attribute %s the strategy" % ("still is" if same else "is no longer")
+        try:
+            wk = dtable.walk(_drop_role_copies(list(t.body) + list(t.orelse)), F, where)
+        except AnalysisError as ex:
+            chk.defer(str(ex))
+            return
+        n_del = n_set = 0
+        for s in wk.ran:
+            if _local_def(s):
+                continue
+            if isinstance(s, ast.Delete) and [unparse(x) for x in s.targets] == ["self[%s]" % attr]:
+                n_del += 1
+                continue
+            if isinstance(s, ast.Expr) and isinstance(s.value, ast.Call):
+                c = s.value
+                if unparse(c.func) == "self.__delitem__" and [unparse(a) for a in c.args] == [attr]:
+                    n_del += 1
+                    continue
+                if unparse(c.func) == "setattr" and [unparse(a) for a in c.args] == ["self", attr, "V__"] and not c.keywords:
+                    n_set += 1
+                    continue
+                a = _is_super(c, "__setattr__")
+                if a is not None and [unparse(x) for x in a] == [attr, "V__"]:
+                    n_set += 1
+                    continue
+            if isinstance(s, ast.Assign) and [unparse(x) for x in s.targets] == ["self.__dict__[%s]" % attr] \
+                    and unparse(s.value) == "V__":
+                n_set += 1
+                continue
+            chk.defer("%s: effect not recognised: %s" % (where, short(s)))
+            return
+        chk.decide((n_del, n_set) == ((1, 0) if same else (0, 1)), rule, where,
+                   label + (": item and attribute deleted together" if same else ": the attribute is put back"),
+                   why="del of a strategy attribute removes the strategy, an overwritten attribute is restored from the item "
+                       "(deletions %d, restorations %d)" % (n_del, n_set), node=fn)
+
+
+def _strategy_setitem(chk, repo, W):
+    from .. import dtable
+    rule = "C15.strategy"
+    where = W("StrategyDict.__setitem__")
+    fn = repo.find(LC, "StrategyDict.__setitem__")
+    par = [a.arg for a in fn.args.args]
+    chk.require(len(par) == 3 and par[0] == "self", "StrategyDict.__setitem__ signature changed")
+    key, value = par[1:]
+    body = docstring_free(fn.body)
+    a_def = ["'default' in vars(self)", "'default' in self.__dict__", "hasattr(self, 'default')"]
+    # deleting the old entries may remove the default: its presence is tested afterwards
+    purge_at = [i for i, s in enumerate(body) if any(isinstance(n, ast.Delete) and any(
+        isinstance(t, ast.Subscript) and unparse(t.value) == "self" for t in n.targets) for n in ast.walk(s))]
+    early = []
+    for i, s in enumerate(body):
+        for n in ast.walk(s):
+            if isinstance(n, ast.expr) and unparse(n) in a_def + [t.replace(" in ", " not in ") for t in a_def]:
+                if purge_at and i <= max(purge_at):
+                    early.append(short(n))
+    chk.decide(not early, rule, where, "the presence of a default is tested after the old entries were deleted",
+               why="deleting a name may take the default with it: %s is evaluated too early" % early[:1], node=fn)
+    for is_tuple in (True, False):
+        for has_default in (True, False):
+            truths = {}
+            for t in a_def:
+                truths[t] = has_default
+                truths[t.replace(" in ", " not in ")] = not has_default
+            F = dtable.Facts(kinds={key: {"tuple"} if is_tuple else {"str"}}, truths=truths)
+            label = "%s key, default %s" % ("tuple" if is_tuple else "single", "present" if has_default else "absent")
+            try:
+                wk = dtable.walk(body, F, where)
+            except AnalysisError as ex:
+                chk.defer(str(ex))
+                return
+            # the names tuple: locals whose value is the key (tuple) / (key,) (single)
+            N = {key} if is_tuple else set()
+            lit = "(%s,)" % key
+            events = []
+            ok_shape = True
+            for s in wk.ran:
+                txt = None
+                if isinstance(s, ast.Assign) and len(s.targets) == 1 and isinstance(s.targets[0], ast.Name):
+                    v = unparse(s.value)
+                    nm = s.targets[0].id
+                    if v in N or (not is_tuple and v in (lit, "tuple([%s])" % key, "tuple((%s,))" % key)) \
+                            or (is_tuple and v in ("tuple(%s)" % key,)):
+                        N.add(nm)
+                        continue
+                    if _local_def(s) and nm not in N and nm not in (key, value):
+                        continue
+                    if nm == key and not is_tuple and v == lit:
+                        N.add(key)
+                        continue
+                is_n = lambda e: unparse(e) in N or (not is_tuple and unparse(e) == lit)
+                if isinstance(s, ast.For) and isinstance(s.target, ast.Name) and is_n(s.iter) and not s.orelse:
+                    k = s.target.id
+                    b = [x for x in s.body if not isinstance(x, ast.Pass)]
+                    if len(b) == 1 and isinstance(b[0], ast.Try) and not b[0].orelse and not b[0].finalbody \
+                            and [unparse(x) for x in b[0].body] == ["del self[%s]" % k] and len(b[0].handlers) == 1 \
+                            and b[0].handlers[0].type is not None and unparse(b[0].handlers[0].type) == "KeyError" \
+                            and all(isinstance(x, ast.Pass) for x in b[0].handlers[0].body):
+                        events.append("purge")
+                        continue
+                    if len(b) == 1 and isinstance(b[0], ast.Expr) and isinstance(b[0].value, ast.Call) \
+                            and unparse(b[0].value.func) == "setattr" and not b[0].value.keywords \
+                            and [unparse(a) for a in b[0].value.args] == ["self", k, value]:
+                        events.append("attrs")
+                        continue
+                if isinstance(s, ast.Expr):
+                    a = _is_super(s.value, "__setitem__")
+                    if a is not None and len(a) == 2 and unparse(a[1]) == value:
+                        events.append("store" if is_n(a[0]) else "store-other:" + unparse(a[0]))
+                        continue
+                if isinstance(s, ast.Assign) and [unparse(x) for x in s.targets] == ["self.default"] and unparse(s.value) == value:
+                    events.append("default")
+                    continue
+                if isinstance(s, ast.Expr) and isinstance(s.value, ast.Call) and unparse(s.value.func) == "setattr" \
+                        and [unparse(a) for a in s.value.args] == ["self", "'default'", value]:
+                    events.append("default")
+                    continue
+                events.append("?" + short(s))
+                ok_shape = False
+            unknown = [e for e in events if e.startswith("?")]
+            known_partial = [e for e in events if not e.startswith("?")]
+            want = ["purge", "store", "attrs"] + ([] if has_default else ["default"])
+            if unknown and sorted(known_partial) == sorted(want):
+                chk.defer("%s: statement not recognised: %s" % (where, unknown[0][1:]))
+                return
+            pos = {e: i for i, e in enumerate(events)}
+            ok = sorted(events) == sorted(want) and pos["purge"] == 0
+            chk.decide(ok, rule, where, label + ": " + " ; ".join(want),
+                       why="every name is first deleted (KeyError ignored), then the strategy is stored under the whole name "
+                           "tuple, every name becomes an attribute and the default is set only when there is none; found: %s"
+                           % " ; ".join(events), node=fn)
+
+
 def run(chk, repo):
     mod = repo.mod(LC)
     W = lambda q: "%s:%s" % (mod.relpath, q)
@@ -177,28 +603,8 @@ def run(chk, repo):
                              "tuple, sets every key as attribute, default = first strategy stored; __delitem__ drops the "
                              "attribute only if it still is the strategy and the default only when the strategy loses its "
                              "last name; __call__ calls self.default; iteration over the strategies")
-    ss = repo.find(LC, "StrategyDict.__setitem__")
-    st = [unparse(s) for s in docstring_free(ss.body)]
-    want_s = ["keys = key if isinstance(key, tuple) else (key,)",
-              "for k in keys:\n    try:\n        del self[k]\n    except KeyError:\n        pass",
-              "super(StrategyDict, self).__setitem__(keys, value)",
-              "for k in keys:\n    setattr(self, k, value)",
-              "if 'default' not in vars(self):\n    self.default = value"]
-    for i, t in enumerate(want_s):
-        alt = t.replace("super(StrategyDict, self)", "super()")
-        chk.decide(i < len(st) and st[i] in (t, alt), "C15.strategy", W("StrategyDict.__setitem__"), t.replace("\n", " "),
-                   why="step %d is '%s'" % (i + 1, (st[i] if i < len(st) else "<missing>").replace("\n", " ")), node=ss)
-    chk.decide(len(st) == len(want_s), "C15.strategy", W("StrategyDict.__setitem__"), "%d steps" % len(st),
-               why="store, attributes and default must use the same key tuple, nothing else", node=ss)
-    sd = repo.find(LC, "StrategyDict.__delitem__")
-    dt2 = [unparse(s) for s in docstring_free(sd.body)]
-    want_d2 = ["keys = self.key2keys(key)", "value = self[keys]", "super(StrategyDict, self).__delitem__(key)",
-               "if hasattr(self, key) and getattr(self, key) == value:\n    super(StrategyDict, self).__delattr__(key)",
-               "if len(keys) == 1 and value == self.default:\n    super(StrategyDict, self).__delattr__('default')"]
-    for i, t in enumerate(want_d2):
-        alt = t.replace("super(StrategyDict, self)", "super()")
-        chk.decide(i < len(dt2) and dt2[i] in (t, alt), "C15.strategy", W("StrategyDict.__delitem__"), t.replace("\n", " "),
-                   why="step %d is '%s'" % (i + 1, (dt2[i] if i < len(dt2) else "<missing>").replace("\n", " ")), node=sd)
+    _strategy_setitem(chk, repo, W)
+    _strategy_delitem(chk, repo, W)
     for q, wantr in (("__call__", "return self.default(*args, **kwargs)"), ("__iter__", "return itervalues(self)")):
         fn = repo.find(LC, "StrategyDict." + q)
         r = docstring_free(fn.body)[-1]
@@ -208,8 +614,4 @@ def run(chk, repo):
     ok = "self[names] = func" in dtx and dtx.rstrip().endswith("return self") and "func.__name__ = str(names[0])" in dtx
     chk.decide(ok, "C15.strategy", W("StrategyDict.strategy"), "decorator stores func under all names and returns the dict",
                why="registration must go through __setitem__ with the whole name tuple", node=dec)
-    da = repo.find(LC, "StrategyDict.__delattr__")
-    dtx = [unparse(s) for s in docstring_free(da.body)]
-    ok = dtx == ["try:\n    if self[attr] == getattr(self, attr):\n        del self[attr]\n    else:\n        setattr(self, attr, self[attr])\nexcept KeyError:\n    super(StrategyDict, self).__delattr__(attr)"]
-    chk.decide(ok, "C15.strategy", W("StrategyDict.__delattr__"), "del attribute of a strategy deletes the item too",
-               why="attribute and item must disappear together (or the attribute be restored)", node=da)
+    _strategy_delattr(chk, repo, W)
